@@ -263,20 +263,44 @@ pub fn version_matrix(opts: &Opts, st: &mut Stats) -> Vec<History> {
         let v2 = json!({"base": b.raw["base"], "events": ev, "fee": b.raw["fee"], "id": b.raw["id"], "owner": b.raw["owner"], "price": b.raw["price"], "quote": b.raw["quote"]});
         base.step(Op::PutRaw { key: map_key("bid", &uuid(3)), value: Some(serde_json::to_vec(&v2).unwrap()) }, opts, st);
     }
-    let msgs: Vec<Value> = vec![
-        json!({}),
-        json!({"approvers": ["appr1", "dave"]}),
+    // override forms: full product of {absent, present} approvers x {absent, empty, valid} fee pairs x
+    // {absent, present} attribute lists, plus the invalid forms
+    let mut msgs: Vec<Value> = vec![];
+    for ap in [None, Some(json!(["appr1", "dave"]))] {
+        for af in [None, Some(("", "")), Some(("0.03", "feeb"))] {
+            for bf in [None, Some(("", "")), Some(("0.04", "feea"))] {
+                for at in [None, Some((json!(["kyc"]), json!([])))] {
+                    let mut o = serde_json::Map::new();
+                    if let Some(a) = &ap {
+                        o.insert("approvers".into(), a.clone());
+                    }
+                    if let Some((r, a)) = af {
+                        o.insert("ask_fee_rate".into(), json!(r));
+                        o.insert("ask_fee_account".into(), json!(a));
+                    }
+                    if let Some((r, a)) = bf {
+                        o.insert("bid_fee_rate".into(), json!(r));
+                        o.insert("bid_fee_account".into(), json!(a));
+                    }
+                    if let Some((x, y)) = &at {
+                        o.insert("ask_required_attributes".into(), x.clone());
+                        o.insert("bid_required_attributes".into(), y.clone());
+                    }
+                    msgs.push(Value::Object(o));
+                }
+            }
+        }
+    }
+    msgs.extend(vec![
         json!({"approvers": []}),
-        json!({"ask_fee_rate": "", "ask_fee_account": ""}),
-        json!({"ask_fee_rate": "0.03", "ask_fee_account": "feeb", "bid_fee_rate": "0.04", "bid_fee_account": "feea"}),
         json!({"ask_fee_rate": "0.03"}),
         json!({"bid_fee_account": "feea"}),
         json!({"bid_fee_rate": "zz", "bid_fee_account": "feea"}),
         json!({"ask_fee_rate": "0.1", "ask_fee_account": "BAD"}),
-        json!({"ask_required_attributes": ["kyc"], "bid_required_attributes": []}),
         json!({"approvers": ["NOTVALID"]}),
-        json!({"approvers": ["carol"], "ask_required_attributes": [], "bid_fee_rate": "", "bid_fee_account": ""}),
-    ];
+        json!({"ask_required_attributes": ["kyc"]}),
+        json!({"bid_required_attributes": ["acc", "kyc"]}),
+    ]);
     let all: Vec<&str> = VERSIONS_IN_WINDOW.iter().chain(VERSIONS_AFTER).chain(VERSIONS_OLD).chain(VERSIONS_BAD).chain(VERSIONS_GRAY).cloned().collect();
     for v in &all {
         for (mi, m) in msgs.iter().enumerate() {
